@@ -105,7 +105,8 @@ def _conn_close_calls(f):
                     continue
                 for s in stores_to_name(f, v.id):
                     src = norm(getattr(s.ast, "value", None)) if getattr(s.ast, "value", None) is not None else ""
-                    if "TConn(" in src or "_keep.pop" in src or ".result()" in src:
+                    val = getattr(s.ast, "value", None)
+                    if "TConn(" in src or "_keep.pop" in src or ".result()" in src or (isinstance(val, ast.Attribute) and val.attr == "conn"):
                         out.append(c)
                         break
     return out
